@@ -94,13 +94,17 @@ func (t Type) findAllFields(path []string, name string, ignoreCase bool) (*Struc
 	}
 
 	var matches []*StructField
-	handle := func(obj types.Object) *StructField {
+	handle := func(obj types.Object, isMethod bool) *StructField {
 		exact := obj.Name() == name
 		if exact || (ignoreCase && strings.EqualFold(obj.Name(), name)) {
 			// exact match takes precedence over case-insensitive match
 			newPath := append([]string{}, path...)
 			newPath = append(newPath, obj.Name())
-			f := &StructField{Path: newPath, Type: TypeOf(obj.Type()).inStruct(&t, obj.Name())}
+			fieldType := TypeOf(obj.Type())
+			if isMethod {
+				fieldType = fieldType.inStruct(&t, obj.Name())
+			}
+			f := &StructField{Path: newPath, Type: fieldType}
 			if exact {
 				return f
 			}
@@ -110,14 +114,14 @@ func (t Type) findAllFields(path []string, name string, ignoreCase bool) (*Struc
 	}
 
 	for y := 0; y < t.StructType.NumFields(); y++ {
-		if exact := handle(t.StructType.Field(y)); exact != nil {
+		if exact := handle(t.StructType.Field(y), false); exact != nil {
 			return exact, matches
 		}
 	}
 
 	if t.Named {
 		for y := 0; y < t.NamedType.NumMethods(); y++ {
-			if exact := handle(t.NamedType.Method(y)); exact != nil {
+			if exact := handle(t.NamedType.Method(y), true); exact != nil {
 				return exact, matches
 			}
 		}
